@@ -359,6 +359,39 @@ def body_fit(case):
         evals += 1
         if first is None:
             first = got
+        # equivalence of the general fit with the dedicated fit beyond the well-conditioned band,
+        # judged a posteriori: when the dedicated routine demonstrably delivers the exact
+        # least-squares solution (1e-6) on these data, the general fit with the same basis must
+        # not refuse them and must agree with it (1e-3: its 2x2/3x3 formula is measurably less
+        # accurate on clustered data - up to 1.6e-5 in calibration - so this is a gross check)
+        if kind == "general" and not asserted and ref["cstar"] is not None and not ref["null"]:
+            names = [s[0] for s in specs]
+            ded = None
+            if names == ["x2", "x", "one"]:
+                ded, dname = cf.quadratic_fitting, "quadratic_fitting"
+            elif names == ["x", "one"]:
+                ded, dname = cf.linear_fitting, "linear_fitting"
+            if ded is not None and abs(lsq.det(ref["A"])) >= F(1, 10 ** 8):
+                try:
+                    dres = ded()
+                except ZeroDivisionError:
+                    dres = None
+                cs = ref["cstar"]
+                if dres is not None:
+                    scale = max(abs(c) for c in cs)
+                    ok = scale > 0 and all(abs(F(float(dres[i])) - cs[i]) <= scale / 10 ** 6 for i in range(len(cs)))
+                    if ok:
+                        if "equivalence_checked_a_posteriori" not in labels:
+                            labels.append("equivalence_checked_a_posteriori")
+                        if isinstance(got, ZeroDivisionError):
+                            raise Violation("%s raised ZeroDivisionError(%s) although %s returns %r, the exact "
+                                            "least-squares solution to 1e-6, for the same data: the general fit "
+                                            "with this basis must equal it" % (what, got, dname, dres),
+                                            site=site, kind="general_refuses_what_dedicated_fit_solves")
+                        if any(abs(F(float(got[i])) - F(float(dres[i]))) > scale / 1000 for i in range(len(cs))):
+                            raise Violation("%s = %r but %s = %r (exact solution %r): the general fit with this "
+                                            "basis must equal it" % (what, got, dname, dres, [float(c) for c in cs]),
+                                            site=site, kind="general_differs_from_dedicated_fit")
         # equivalences of the general fit
         if kind == "general" and asserted:
             names = [s[0] for s in specs]
